@@ -71,9 +71,12 @@ def candidates(case, limit=240):
     return out[:limit]
 
 
-def shrink(prop, case, strip_meta, rounds=14):
-    """returns (smaller_case, its harness result, its oracle description) or None when nothing smaller fails"""
+def shrink(prop, case, strip_meta, rounds=14, orig_result=None):
+    """returns (smaller_case, its harness result, its oracle description) or None when nothing smaller fails.
+    A candidate on which the implementation panics is only accepted when the original failure was a panic too: removing
+    elements can make an input malformed for the harness itself, which is not the failure being minimised."""
     best = None
+    allow_panic = orig_result is None or orig_result == "PANIC"
     cur = case
     for _ in range(rounds):
         cands = candidates(strip_meta(cur))
@@ -85,7 +88,7 @@ def shrink(prop, case, strip_meta, rounds=14):
             break
         hits = []
         for c, h in zip(cands, res):
-            if h.get("r") in ("HANG", "HARNESS_ERROR"):
+            if h.get("r") in ("HANG", "HARNESS_ERROR") or (h.get("r") == "PANIC" and not allow_panic):
                 continue
             c2 = dict(c, meta=cur.get("meta", {}))
             try:
